@@ -15,22 +15,22 @@ Definition only_rmfrom_keeps : cfg := {| share_copy := false; class_domains := f
 Definition new3 (c : cls) : op := NewGraph c [0; 1; 2].
 
 (* remove ('F',0) of two F-nodes, add again: the name ('F', len) = ('F',1) is the name of the surviving node *)
-Definition h_reuse : list op := [new3 AG; On 0 (LAddF [0]); On 0 (LAddF [1]); On 0 (LRemove (FN 0))].
+Definition h_reuse : list op := [new3 AG; On 0 (LAddF [0] []); On 0 (LAddF [1] []); On 0 (LRemove (FN 0))].
 (* copy, then add to the copy: the F-node shows up in the registry of the original *)
-Definition h_copy : list op := [new3 AG; On 0 (LAddF [0]); Copy 0].
+Definition h_copy : list op := [new3 AG; On 0 (LAddF [0] []); Copy 0].
 (* a second graph sees the first one's domains *)
 Definition h_two : list op := [new3 AG; new3 APAG].
 (* AugmentedGraph.remove_node leaves the S-node registered *)
 Definition h_snode : list op := [new3 AG; On 0 (LAddS 1 2 [0]); On 0 (LRemove (SN 0))].
 (* remove_nodes_from leaves the F-node registered *)
-Definition h_rmfrom : list op := [new3 AG; On 0 (LAddF [0]); On 0 (LRemoves [FN 0])].
+Definition h_rmfrom : list op := [new3 AG; On 0 (LAddF [0] []); On 0 (LRemoves [FN 0])].
 
 Ltac refute_fresh k :=
   let H := fresh "H" in let X := fresh "X" in
   intros H;
-  pose (w' := fst (step k (run k h_reuse) (On 0 (LAddF [2]))));
-  assert (X : step k (run k h_reuse) (On 0 (LAddF [2])) = (w', 0)) by (vm_compute; reflexivity);
-  destruct (H h_reuse 0 [2] w' X) as [i [g [g' [A [B [_ [D _]]]]]]];
+  pose (w' := fst (step k (run k h_reuse) (On 0 (LAddF [2] []))));
+  assert (X : step k (run k h_reuse) (On 0 (LAddF [2] [])) = (w', 0)) by (vm_compute; reflexivity);
+  destruct (H h_reuse 0 [2] [] w' X) as [i [g [g' [A [B [_ [D _]]]]]]];
   vm_compute in A; inversion A; subst g; vm_compute in B; inversion B; subst g';
   vm_compute in D; discriminate D.
 
@@ -50,14 +50,14 @@ Ltac with_obj k h o H g :=
 (* name reuse: ('F',1) now has children {1,2} but registered targets {2} *)
 Theorem registry_inv_refuted_reuse : ~ registry_inv_stmt as_coded.
 Proof.
-  with_obj as_coded (h_reuse ++ [On 0 (LAddF [2])]) 0 H g.
+  with_obj as_coded (h_reuse ++ [On 0 (LAddF [2] [])]) 0 H g.
   destruct (ok_children _ _ H 1 [2] eq_refl) as [_ X]. specialize (X 1). vm_compute in X.
   destruct (X (or_introl eq_refl)) as [Y|[]]. discriminate Y.
 Qed.
 
 Theorem registry_inv_refuted_len_names_alone : ~ registry_inv_stmt only_len_names.
 Proof.
-  with_obj only_len_names (h_reuse ++ [On 0 (LAddF [2])]) 0 H g.
+  with_obj only_len_names (h_reuse ++ [On 0 (LAddF [2] [])]) 0 H g.
   destruct (ok_children _ _ H 1 [2] eq_refl) as [_ X]. specialize (X 1). vm_compute in X.
   destruct (X (or_introl eq_refl)) as [Y|[]]. discriminate Y.
 Qed.
@@ -65,14 +65,14 @@ Qed.
 (* copy then add to the copy: the original's registry lists ('F',1), which is not a node of the original *)
 Theorem registry_inv_refuted_copy : ~ registry_inv_stmt as_coded.
 Proof.
-  with_obj as_coded (h_copy ++ [On 1 (LAddF [1])]) 0 H g.
+  with_obj as_coded (h_copy ++ [On 1 (LAddF [1] [])]) 0 H g.
   pose proof (proj1 (ok_f_present _ _ H 1)) as X. vm_compute in X.
   destruct (X (or_intror (or_introl eq_refl))) as [Y|[]]. discriminate Y.
 Qed.
 
 Theorem registry_inv_refuted_share_alone : ~ registry_inv_stmt only_share.
 Proof.
-  with_obj only_share (h_copy ++ [On 1 (LAddF [1])]) 0 H g.
+  with_obj only_share (h_copy ++ [On 1 (LAddF [1] [])]) 0 H g.
   pose proof (proj1 (ok_f_present _ _ H 1)) as X. vm_compute in X.
   destruct (X (or_intror (or_introl eq_refl))) as [Y|[]]. discriminate Y.
 Qed.
@@ -113,10 +113,10 @@ Ltac refute_indep k h p o' :=
 
 (* an add_f_node on the copy is visible in the original *)
 Theorem objects_independent_refuted_copy : ~ independent_stmt as_coded.
-Proof. refute_indep as_coded h_copy (On 1 (LAddF [1])) 0. Qed.
+Proof. refute_indep as_coded h_copy (On 1 (LAddF [1] [])) 0. Qed.
 
 Theorem objects_independent_refuted_share_alone : ~ independent_stmt only_share.
-Proof. refute_indep only_share h_copy (On 1 (LAddF [1])) 0. Qed.
+Proof. refute_indep only_share h_copy (On 1 (LAddF [1] [])) 0. Qed.
 
 (* an add_s_node on one graph changes `domains` of a separately constructed graph (of the other class, even) *)
 Theorem objects_independent_refuted_domains : ~ independent_stmt as_coded.
